@@ -14,7 +14,7 @@ import tlc
 from drivers import body_io as drv
 
 OUT = tlc.OUT
-SIZES = [None, -1, 0, 1, 2, 3, 7, 1023, 1024, 1025, 2048, 8191, 8192, 8193, 100000]
+SIZES = [None, -1, -2, -5, -1024, 0, 1, 2, 3, 7, 1023, 1024, 1025, 2048, 8191, 8192, 8193, 100000]
 
 
 def model(ctx, label, maxbody, block, maxcalls, dev=(), expect=None):
@@ -114,7 +114,14 @@ def c07(ctx):
                     for _ in range(reps):
                         trailers = b"X-T: 1\r\n" if framing == "chunked" and rng.random() < 0.3 else b""
                         method = rng.choice([b"POST", b"POST", b"GET", b"HEAD", b"PUT", b"DELETE"])
-                        stream = drv.frame(body, framing, lay, trailers, ext=rng.random() < 0.5, method=method) + drv.FOLLOWER
+                        # a share of the runs with small head limits and a pipelined request whose (legal) head is longer
+                        # than the header-block cap those limits give: the limits concern heads, not the bytes after a body
+                        small = rng.random() < 0.25
+                        fol = drv.LONG_FOLLOWER if small else drv.FOLLOWER
+                        cfgkw = {"limit_request_fields": 2, "limit_request_field_size": 64} if small else None
+                        if small and trailers:
+                            trailers = b"X-T: 1\r\n"
+                        stream = drv.frame(body, framing, lay, trailers, ext=rng.random() < 0.5, method=method) + fol
                         k = rng.randint(0, 5)
                         cuts = sorted(rng.sample(range(1, len(stream)), min(k, len(stream) - 1)))
                         if rng.random() < 0.2:
@@ -124,10 +131,10 @@ def c07(ctx):
                         prog = rand_program(rng, 6 if ctx.quick else 30)
                         if rng.random() < 0.15:
                             prog = []            # the application ignores its input altogether
-                        ev = drv.run_program(stream, cuts, prog, body, source=rng.choice(["iter", "sock", "tls"]))
+                        ev = drv.run_program(stream, cuts, prog, body, source=rng.choice(["iter", "sock", "tls"]), cfgkw=cfgkw, follower=fol)
                         traces.append({"blen": blen, "nls": nls, "ev": ev})
                         metas.append({"kind": "real", "blen": blen, "nl": nlstyle, "framing": framing, "layout": lay[:10],
-                                      "prog": prog, "ncuts": len(cuts), "cuts": cuts[:20], "trailers": bool(trailers),
+                                      "prog": prog, "ncuts": len(cuts), "cuts": cuts[:20], "trailers": bool(trailers), "small_limits": small,
                                       "method": method.decode()})
     # (P) the same through the workers' connection handling: the rest of a body the application did not read arrives
     # after the response (keep-alive connection handed back to the poller / the handler loop in between)
